@@ -2,9 +2,10 @@
    sync:
      dot/sync/fullsync.go        FullSyncStrategy.Process, validateResults, validateResponseFields,
                                  isResponseAChain, sortFragmentsOfChain, mergeFragmentsOfChain,
-                                 validBlocksUnderFragment
+                                 validBlocksUnderFragment, OnBlockAnnounce, blockAlreadyTracked
      dot/sync/unready_blocks.go  newIncompleteBlock, newDisjointFragment, updateDisjointFragments,
-                                 updateIncompleteBlocks, removeIrrelevantFragments
+                                 updateIncompleteBlocks, removeIrrelevantFragments, isIncomplete,
+                                 inDisjointFragment
      dot/types/block_data.go     BlockData.IsParent
    against an environment that stands for the block state and the importer:
      known   the hashes blockState.HasHeader answers true for
@@ -343,7 +344,13 @@ Fixpoint import_all (e : env) (l : list bdata) : list event * env * bool :=
 
 (* ---------------------------------------------------------------- Process *)
 
-Record pstate := mkps { p_env : env; p_un : unready; p_queue : list N }.
+(* the requests waiting in f.requestQueue: the ancestor search Process starts from the parent of a
+   disjoint fragment (descending from that hash, MaxBlocksInResponse, bootstrap fields), and the
+   body request OnBlockAnnounce makes for an announced block (ascending from the hash, max 1,
+   body + justification) *)
+Inductive qreq := QAncestors (h : N) | QBody (h : N).
+
+Record pstate := mkps { p_env : env; p_un : unready; p_queue : list qreq }.
 
 Record presult := mkpr {
   pr_state : pstate;
@@ -391,8 +398,8 @@ Fixpoint split_known (e : env) (frs : list (list bdata)) (next : list bdata) (di
   end.
 
 (* the loop over the disjoint fragments after the first round of imports *)
-Fixpoint second_round (e : env) (dis : list (list bdata)) (u : unready) (queue : list N)
-  (next : list bdata) : outcome (unready * list N * list bdata) :=
+Fixpoint second_round (e : env) (dis : list (list bdata)) (u : unready) (queue : list qreq)
+  (next : list bdata) : outcome (unready * list qreq * list bdata) :=
   match dis with
   | [] => Ok (u, queue, next)
   | f :: r =>
@@ -404,7 +411,7 @@ Fixpoint second_round (e : env) (dis : list (list bdata)) (u : unready) (queue :
       | Some h =>
         if knows e (h_parent h) then second_round e r u queue (next ++ v)
         else if sub64 (h_number h) 1 <=? fin e then second_round e r u queue next
-        else second_round e r (mkun (u_incomplete u) (u_disjoint u ++ [v])) (queue ++ [h_parent h]) next
+        else second_round e r (mkun (u_incomplete u) (u_disjoint u ++ [v])) (queue ++ [QAncestors (h_parent h)]) next
       end
     end
   end.
@@ -461,11 +468,41 @@ Definition process : bool -> bool -> bool -> list N -> pstate -> list result -> 
 
 (* ---------------------------------------------------------------- histories *)
 
+(* ---------------------------------------------------------------- OnBlockAnnounce *)
+Definition max_blocks : N := Z.to_N Gen.max_blocks_in_response.
+Definition REP_BAD_ANNOUNCE : N := 4.     (* BadBlockAnnouncement, returned with errBadBlockReceived *)
+Definition REP_NOT_RELEVANT : N := 5.     (* NotRelevantBlockAnnounce *)
+Definition REP_GOSSIP_OK : N := 6.        (* GossipSuccess *)
+
+(* unreadyBlocks.inDisjointFragment: a binary search for the number, then the hash is compared.
+   On the fragments unreadyBlocks keeps (chains, numbers strictly increasing) the search finds the
+   one block with that number *)
+Definition in_fragment (f : list bdata) (h n : N) : bool :=
+  match find (fun b => num_of b =? n) f with Some b => d_hash b =? h | None => false end.
+
+(* blockAlreadyTracked *)
+Definition tracked (u : unready) (h : header) : bool :=
+  existsb (fun b => d_hash b =? h_hash h) (u_incomplete u)
+  || existsb (fun f => in_fragment f (h_hash h) (h_number h)) (u_disjoint u).
+
+(* FullSyncStrategy.OnBlockAnnounce(who, announce of header h) while the best block has number
+   [best] (blockState not paused, announce without the best-block flag): the new state and the
+   reputation change returned, as a presult without importer events *)
+Definition announce (bad : list N) (st : pstate) (who : N) (h : header) (best : N) : presult :=
+  if existsb (N.eqb (h_hash h)) bad then mkpr st [] false [(who, REP_BAD_ANNOUNCE)] [] else
+  if (h_number h <=? fin (p_env st)) || tracked (p_un st) h
+  then mkpr st [] false [(who, REP_NOT_RELEVANT)] [] else
+  if max_blocks <? N.max (h_number h) best - N.min (h_number h) best then mkpr st [] false [] [] else
+  if knows (p_env st) (h_hash h) then mkpr st [] false [(who, REP_GOSSIP_OK)] [] else
+  mkpr (mkps (p_env st) (new_incomplete (p_un st) h) (p_queue st ++ [QBody (h_hash h)]))
+       [] false [(who, REP_GOSSIP_OK)] [].
+
 Inductive step :=
-| SAnnounce (h : header)
+| SAnnounce (h : header)                       (* unreadyBlocks.newIncompleteBlock directly *)
 | SKnown (h : N)
 | SFinal (n : N)
-| SProcess (rs : list result).
+| SProcess (rs : list result)
+| SAnnounceMsg (who : N) (h : header) (best : N).   (* OnBlockAnnounce *)
 
 Definition do_step_with (srt : list (list bdata) -> list (list bdata))
   (chk frg lg : bool) (bad : list N) (st : pstate) (s : step) : outcome (pstate * option presult) :=
@@ -478,6 +515,7 @@ Definition do_step_with (srt : list (list bdata) -> list (list bdata))
     | Ok r => Ok (pr_state r, Some r)
     | Err c => Err c | Panic => Panic | OutOfFuel => OutOfFuel
     end
+  | SAnnounceMsg who h best => let r := announce bad st who h best in Ok (pr_state r, Some r)
   end.
 Definition do_step := do_step_with sort_frags.
 
